@@ -322,6 +322,215 @@ fn main() {
             }
             p.next();
         }
+        // ---- ask / update / ask again inside ONE epoch, then next() twice, ask again: the entry
+        //      point the trainer uses (`Profile::counterfactual`) must answer from the regrets stored
+        //      NOW, whatever was asked before (half of the sequences run on a fresh thread)
+        {
+            let asks = if a.thorough() { 3000 } else { 300 };
+            let mut done = 0u64;
+            for parity in 0..2usize {
+                {
+                    let mut p = arc.write().unwrap();
+                    let t = p.epochs();
+                    p.verif_set_epochs(if t % 2 == parity { t } else { t + 1 });
+                }
+                let fresh = sites_of(&bp, 1);
+                for (k, site) in fresh.iter().enumerate() {
+                    if done >= asks * (parity as u64 + 1) / 2 {
+                        break;
+                    }
+                    done += 1;
+                    let kind = rng.below(11);
+                    let newr = regrets(&mut rng, site.edges.len(), if kind == 9 { 8 } else { kind });
+                    let via_add = rng.chance(1, 2);
+                    let mut results: Vec<(String, usize, Vec<f32>, Option<BTreeMap<Edge, f32>>)> = vec![];
+                    let mut body = || {
+                        let mut p = arc.write().unwrap();
+                        let mut ask = |p: &Profile, label: &str| {
+                            let r: Vec<f32> = site.edges.iter().map(|e| p.verif_memory(&site.bucket, e).expect("witnessed").0).collect();
+                            let got = catch(AssertUnwindSafe(|| p.counterfactual(site.info.clone()).policy().inner().clone()));
+                            results.push((label.to_string(), p.epochs(), r, got));
+                        };
+                        ask(&p, "first ask");
+                        if via_add {
+                            let m: BTreeMap<Edge, f32> = site.edges.iter().cloned().zip(newr.iter().cloned()).collect();
+                            p.add_regret(&site.bucket, &robopoker::mccfr::regret::Regret::from(m));
+                        } else {
+                            for (e, x) in site.edges.iter().zip(newr.iter()) {
+                                let pol = p.verif_memory(&site.bucket, e).unwrap().1;
+                                p.verif_set_memory(&site.bucket, e, *x, pol);
+                            }
+                        }
+                        ask(&p, "ask again in the same epoch after the regrets changed");
+                        p.next();
+                        p.next();
+                        ask(&p, "ask after next() x2");
+                    };
+                    if k % 2 == 0 {
+                        std::thread::scope(|sc| {
+                            sc.spawn(&mut body).join().ok();
+                        });
+                    } else {
+                        body();
+                    }
+                    for (label, t, r, got) in results {
+                        run.evaluations += 1;
+                        let bits = r.iter().map(|x| x.to_bits().to_string()).collect::<Vec<_>>().join(" ");
+                        let answer = match &got {
+                            None => "panic".to_string(),
+                            Some(m) => m.values().map(|v| tok(*v)).collect::<Vec<_>>().join(" "),
+                        };
+                        let op = format!("policy32 {} {} {}", site.player, t, bits);
+                        run.line(&op, &answer);
+                        run.count(&format!("counterfactual: {label}"));
+                        if r.iter().all(|x| x.is_finite()) {
+                            oracle(&mut run, &format!("{op} [counterfactual(), {label}, regrets changed by {}]", if via_add { "add_regret" } else { "verif_set_memory" }), site, t, &r, &got);
+                        }
+                    }
+                }
+            }
+        }
+
+        // ---- save -> file cut short (as an interrupted save leaves it) -> load -> resume.
+        //      Either load refuses the file, or every loaded bucket has its whole menu and
+        //      computing strategies on it never aborts.
+        {
+            use robopoker::save::upload::Table;
+            std::fs::create_dir_all("pgcopy").expect("pgcopy dir");
+            let path = Profile::path(robopoker::cards::street::Street::Pref);
+            arc.write().unwrap().verif_set_epochs(0);
+            let p0_sites = sites_of(&bp, 1); // walker 0 = the traverser right after a load
+            arc.read().unwrap().save();
+            let bytes = std::fs::read(&path).expect("saved blueprint");
+            const ROW: usize = 66;
+            let nrows = (bytes.len() - 19 - 2) / ROW;
+            let key = |k: usize| {
+                let o = 19 + k * ROW;
+                let u = |i: usize| u64::from_be_bytes(bytes[o + i..o + i + 8].try_into().unwrap());
+                (u(6), u(18), u(30))
+            };
+            let mut spans: BTreeMap<(u64, u64, u64), (usize, usize)> = BTreeMap::new(); // bucket -> (first row, rows)
+            for k in 0..nrows {
+                let e = spans.entry(key(k)).or_insert((k, 0));
+                e.1 += 1;
+            }
+            let mut cuts: Vec<(usize, String)> = vec![(bytes.len(), "complete file".to_string())];
+            let want = if a.thorough() { 60 } else { 10 };
+            let mut targets: Vec<&Site> = p0_sites.iter().filter(|s| s.edges.len() >= 2).collect();
+            for _ in 0..want.min(targets.len()) {
+                let site = targets.swap_remove(rng.below(targets.len() as u64) as usize);
+                let k3 = (u64::from(site.bucket.0), u64::from(site.bucket.1), u64::from(site.bucket.2));
+                if let Some(&(first, n)) = spans.get(&k3) {
+                    let j = 1 + rng.below(n as u64 - 1) as usize;
+                    let at = 19 + (first + j) * ROW;
+                    cuts.push((at, format!("cut on the row boundary after {j} of the {n} rows of bucket {}", site.bucket)));
+                    cuts.push((at + 1 + rng.below(ROW as u64 - 1) as usize, format!("cut inside row {} of the {n} rows of bucket {}", j + 1, site.bucket)));
+                    cuts.push((19 + (first + n) * ROW, format!("cut on the bucket boundary after bucket {}", site.bucket)));
+                    cuts.push((19 + first * ROW + 1 + rng.below(ROW as u64 - 1) as usize, format!("cut inside the first row of bucket {}", site.bucket)));
+                }
+            }
+            cuts.push((bytes.len() - 2, "trailer missing".to_string()));
+            cuts.push((bytes.len() - 1, "trailer cut in half".to_string()));
+            for (at, what) in cuts {
+                std::fs::write(&path, &bytes[..at]).expect("write cut blueprint");
+                run.evaluations += 1;
+                run.spec_checked += 1;
+                let input = format!("saved blueprint of {} bytes ({nrows} rows), first {at} bytes kept: {what}; then Profile::load and resume", bytes.len());
+                let loaded = catch(|| Profile::load(robopoker::cards::street::Street::Pref));
+                let loaded = match loaded {
+                    None => {
+                        run.count("load: refused");
+                        if at == bytes.len() {
+                            run.fail("load-of-complete-blueprint-aborts", &input, "the saved profile", "panic");
+                        }
+                        continue;
+                    }
+                    Some(l) => l,
+                };
+                run.count(if at == bytes.len() { "load: complete file accepted" } else { "load: cut file accepted" });
+                // every loaded bucket offers exactly its menu
+                let mut complete = true;
+                for (bucket, rows) in loaded.verif_buckets() {
+                    let menu: BTreeSet<Edge> = Vec::<Edge>::from(bucket.2.clone()).into_iter().collect();
+                    let have: BTreeSet<Edge> = rows.iter().map(|(e, _, _)| e.clone()).collect();
+                    if menu != have {
+                        complete = false;
+                        run.fail("loaded-bucket-misses-actions", &input, &format!("bucket {bucket} with its {} actions {menu:?}", menu.len()), &format!("{} actions {have:?}", have.len()));
+                    }
+                }
+                if loaded.epochs() != 0 {
+                    run.fail("loaded-profile-counter-not-0", &input, "0", &loaded.epochs().to_string());
+                }
+                // the strategy at the traverser's information sets that the loaded profile knows
+                let lbp = Blueprint::verif_new(loaded, Encoder::default());
+                let larc = lbp.verif_profile();
+                {
+                    let lp = larc.read().unwrap();
+                    for site in p0_sites.iter() {
+                        if site.edges.iter().all(|e| lp.verif_memory(&site.bucket, e).is_none()) {
+                            continue; // bucket not in the file: the sampler would witness it afresh
+                        }
+                        let r: Vec<Option<f32>> = site.edges.iter().map(|e| lp.verif_memory(&site.bucket, e).map(|m| m.0)).collect();
+                        let got = catch(AssertUnwindSafe(|| lp.policy_vector(&site.info)));
+                        run.evaluations += 1;
+                        if r.iter().all(|x| x.is_some()) {
+                            let r: Vec<f32> = r.into_iter().map(|x| x.unwrap()).collect();
+                            let bits = r.iter().map(|x| x.to_bits().to_string()).collect::<Vec<_>>().join(" ");
+                            let answer = match &got {
+                                None => "panic".to_string(),
+                                Some(m) => m.values().map(|v| tok(*v)).collect::<Vec<_>>().join(" "),
+                            };
+                            let op = format!("policy32 {} 0 {}", site.player, bits);
+                            run.line(&op, &answer);
+                            oracle(&mut run, &format!("{op} [after load of: {what}]"), site, 0, &r, &got);
+                        } else if got.is_none() {
+                            run.spec_checked += 1;
+                            run.fail("policy-panics-after-load", &format!("{input}; policy_vector at {} ({} actions on the menu, {} loaded)", site.bucket, site.edges.len(), r.iter().filter(|x| x.is_some()).count()),
+                                "a distribution over the menu", "panic");
+                        }
+                    }
+                }
+                // resume: two epochs of the real loop on freshly sampled trees
+                for _ in 0..2 {
+                    let infos = catch(AssertUnwindSafe(|| Vec::<Info>::from(Partition::from(lbp.verif_tree()))));
+                    let infos = match infos {
+                        None => {
+                            run.fail("resume-aborts", &input, "a sampled tree", "panic while sampling");
+                            break;
+                        }
+                        Some(i) => i,
+                    };
+                    let mut ups = vec![];
+                    {
+                        let lp = larc.read().unwrap();
+                        for info in infos {
+                            run.evaluations += 1;
+                            run.spec_checked += 1;
+                            let b = info.node().bucket().clone();
+                            match catch(AssertUnwindSafe(|| lp.counterfactual(info))) {
+                                None => run.fail("resume-aborts", &format!("{input}; counterfactual at {b}"), "regret and policy vectors", "panic"),
+                                Some(cf) => ups.push(cf),
+                            }
+                        }
+                    }
+                    let mut lp = larc.write().unwrap();
+                    let ok = catch(AssertUnwindSafe(|| {
+                        for cf in ups.iter() {
+                            let b = cf.info().node().bucket().clone();
+                            lp.add_regret(&b, cf.regret());
+                            lp.add_policy(&b, cf.policy());
+                        }
+                        lp.next();
+                    }));
+                    if ok.is_none() {
+                        run.fail("resume-aborts", &input, "updates applied", "panic in add_regret/add_policy");
+                    }
+                }
+                let _ = complete;
+            }
+            std::fs::write(&path, &bytes).ok();
+        }
+
         run.notes.push(format!("training-produced states: {epochs} real epochs x {batch} trees, then counter reset to 0 as by Profile::load; {visited} information-set visits checked"));
     }
 
@@ -421,7 +630,7 @@ fn main() {
          {{0,1,2,small,<2^20,<2^40,2^k,usize::MAX-k}} with parity chosen to match the node's player (1/25 deliberately mismatched: must abort), \
          1/60 with a stored NaN/inf (correspondence only); regret_vector on every information set of {tree_rounds} more trees per traverser with \
          the stored average strategy left as is / randomised / made extreme; {clamp_cases} random bit patterns through the clamp expression; \
-         walker at 2064 counters; plus every information set visited during real training epochs (4 trees per epoch) and after a simulated load. A policy case is non-trivial always (>= 2 actions or a checked singleton); distinct by (player, t, regret bits)"
+         walker at 2064 counters; plus every information set visited during real training epochs (4 trees per epoch) and after a simulated load; Profile::counterfactual in ask / change regrets / ask again (same epoch) / next x2 / ask sequences, half on fresh threads; save -> blueprint cut at row boundaries inside a bucket, inside rows, at bucket boundaries, without trailer -> load -> menu completeness, policy_vector at the known information sets, two resumed epochs. A policy case is non-trivial always (>= 2 actions or a checked singleton); distinct by (player, t, regret bits)"
     );
     run.finish();
 }
